@@ -46,12 +46,12 @@ RULE = (
     "conversions between distinct frames, hence is non-trivial; cases are distinct by construction (distinct tuples)"
 )
 BOUNDS = {
-    "quick": "21 frames (10 built-in, 2 stations + 1 equatorial station, Kepler-orbit frames None/QSW/TNW (references keplerian-EME2000 / keplerian-TEME / cartesian-MOD), plain-StateVector frames "
-    "None/QSW/TNW (references cartesian-MOD / cartesian-TEME / keplerian-G50), Moon, Sun); LEO state: all 21x20x20 triples + repeat pass; GEO and ground point: all ordered pairs (round trip and "
+    "quick": "24 frames (10 built-in, 2 stations on ITRF + stations on PEF, TIRF and TOD + 1 equatorial station, Kepler-orbit frames None/QSW/TNW (references keplerian-EME2000 / keplerian-TEME / cartesian-MOD), plain-StateVector frames "
+    "None/QSW/TNW (references cartesian-MOD / cartesian-TEME / keplerian-G50), Moon, Sun); LEO state: all 24x23x23 triples + repeat pass; GEO and ground point: all ordered pairs (round trip and "
     "as tail of a triple) + finite differences; 5 dates (real EOP) / 2 (zero) / 1+1 (missing: pass, warning); reference edges and "
     "matrix structure on 16 / 5 / 3 / 3 dates (incl. |sin Omega| ~ 1 before, inside and after 1992-02-27..1997-02-27); re-binding "
     "histories: 8 frame kinds x reset/no reset x 2 request orders x 3 bindings on 1 date (real) + 1 (zero); error policy: Date must raise",
-    "thorough": "21 frames, all triples + repeat pass for 4 states (LEO, GEO, ground point, HEO perigee) x 16 dates x 4 configurations; "
+    "thorough": "24 frames, all triples + repeat pass for 4 states (LEO, GEO, ground point, HEO perigee) x 16 dates x 4 configurations; "
     "histories on 4 + 2 + 1 + 1 dates",
 }
 ASSUMPTIONS = [
@@ -76,13 +76,16 @@ NOT_COVERED = (
 
 POLE = "/repo/tests/data/pole"  # IERS tables are data; always the repository's test data
 BUILTIN = ["EME2000", "MOD", "TOD", "TEME", "PEF", "ITRF", "TIRF", "CIRF", "GCRF", "G50"]
-EXTRA = ["S1", "S2", "SE", "O0", "OQ", "OT", "V0", "VQ", "VT", "Moon", "Sun"]
+EXTRA = ["S1", "S2", "SP", "ST", "SD", "SE", "O0", "OQ", "OT", "V0", "VQ", "VT", "Moon", "Sun"]
 FRAMES = BUILTIN + EXTRA
 CLUSTER = dict(EME2000="80", MOD="80", TOD="80", TEME="80", G50="80", PEF="F", ITRF="F", TIRF="F", CIRF="10", GCRF="10")
-ROTATING = {"PEF", "ITRF", "TIRF", "S1", "S2"}
-KLASS = dict(S1="station", S2="station", SE="station-eq", O0="orbit-inertial", OQ="orbit-lof", OT="orbit-lof",
+ROTATING = {"PEF", "ITRF", "TIRF", "S1", "S2", "SP", "ST"}
+KLASS = dict(S1="station", S2="station", SP="station", ST="station", SD="station-inertial", SE="station-eq", O0="orbit-inertial", OQ="orbit-lof", OT="orbit-lof",
              V0="sv-inertial", VQ="sv-lof", VT="sv-lof", Moon="body", Sun="body")
 STATIONS = dict(S1=(43.604482, 1.443962, 172.0), S2=(-33.45, -70.66, 520.0))
+# stations whose coordinates are given in another parent frame than the default ITRF (with real polar motion the
+# routes station->ITRF and station->parent->ITRF must still agree); SD is fixed in TOD, i.e. does not turn with the Earth
+PARENT_STATIONS = dict(SP=("PEF", (28.5, -80.6, 10.0)), ST=("TIRF", (-25.9, 27.7, 1400.0)), SD=("TOD", (5.2, -52.8, 100.0)))
 LOF_KEP = [7000e3, 0.001, 0.9, 0.3, 0.2, 0.1]  # O0/OQ/OT: attached to a propagating (Kepler) Orbit
 SV_KEP = [6900e3, 0.002, 1.2, 1.0, 0.4, 2.0]  # V0/VQ/VT: attached to a plain, non-propagating StateVector
 SE_SITE = (18.9, -155.6, 30.0)  # SE: "equatorial" station (EME2000 axes, centre on the ground)
@@ -224,6 +227,8 @@ def get_ctx(dt):
     date = mk_date(dt)
     for name, lla in STATIONS.items():
         create_station(name, lla)
+    for name, (parent, lla) in PARENT_STATIONS.items():
+        create_station(name, lla, parent_frame=get_frame(parent))
     from beyond.orbits import StateVector
 
     # references deliberately NOT all "cartesian in the parent frame (EME2000)": one object per frame, given in other
@@ -265,11 +270,11 @@ def get_ctx(dt):
         states=states,
         frames={f: get_frame(f) for f in FRAMES},
         n_lof=math.sqrt(mu / LOF_KEP[0] ** 3),
-        R_origin=dict(S1=6.4e6, S2=6.4e6, SE=6.4e6, O0=LOF_KEP[0] * 1.002, OQ=LOF_KEP[0] * 1.002, OT=LOF_KEP[0] * 1.002),
+        R_origin=dict(S1=6.4e6, S2=6.4e6, SP=6.4e6, ST=6.4e6, SD=6.4e6, SE=6.4e6, O0=LOF_KEP[0] * 1.002, OQ=LOF_KEP[0] * 1.002, OT=LOF_KEP[0] * 1.002),
         mu=mu,
         memo={},
     )
-    for f in ("S1", "S2", "SE"):
+    for f in ("S1", "S2", "SP", "ST", "SD", "SE"):
         refs[f] = cur["frames"][f].center.offset  # the station coordinates handed to the centre
     cur["refs"] = {k: (obj, ref_state(obj)) for k, obj in refs.items()}
     kind = _G["kind"]
@@ -862,11 +867,53 @@ def run_history(cfg, dt, hkind, restore_between, order, t):
     t.outcome(("history", hkind, bool(restore_between), int(order)))
 
 
+def check_forms(ctx, cfg, t):
+    """A state held in a non-cartesian form keeps its meaning through a frame change: converting in keplerian /
+    spherical form equals converting in cartesian form and changing form afterwards (with the NEW frame's central
+    body), and the round trip gives the elements back."""
+    from beyond.orbits import StateVector
+
+    for form in ("keplerian", "spherical"):
+        for F in ("Moon", "Sun", "S1", "O0", "MOD"):
+            case = dict(kind="forms", config=cfg, date=list(ctx["dt"]), form=form, B=F)
+            cart = make_sv(ctx, 0)
+            try:
+                x = cart.copy(form=form)
+                direct = x.copy(frame=F)
+                two_step = arr(cart.copy(frame=F).copy(form="cartesian"))
+                back = arr(direct.copy(frame="EME2000"))
+                d_cart = arr(direct.copy(form="cartesian"))
+            except Exception as e:
+                t.fail(f"forms/raises/{klass(F)}", "a state in any form can change frame", case, "a state", repr(e))
+                continue
+            t.trans(5)
+            tp, tv = tol_pv([arr(cart), two_step])
+            tp, tv = 100 * tp, 100 * tv  # element <-> cartesian conversions: conditioning of the forms (C01's subject), kept loose here
+            dp, dv = float(np.linalg.norm(d_cart[:3] - two_step[:3])), float(np.linalg.norm(d_cart[3:] - two_step[3:]))
+            if direct.form.name != form or direct.frame.name != F:
+                t.fail("forms/tag", "form and frame tags after a frame change", case, [form, F], [direct.form.name, direct.frame.name])
+            if not (dp <= tp and dv <= tv):
+                t.fail(f"forms/frame-change/{klass(F)}", "changing frame in keplerian/spherical form equals changing it in cartesian form", case,
+                       two_step.tolist(), d_cart.tolist(), f"{form} EME2000->{F}: {dp:.3e} m, {dv:.3e} m/s")
+            x0 = arr(x)
+            scale = np.maximum(np.abs(x0), 1.0)
+            rel = float(np.max(np.abs(back - x0) / scale)) if form == "keplerian" else float(np.max(np.abs(back - x0) / scale))
+            # round-off of the two affine maps relative to the state, times the conditioning of the element set
+            # (argument of perigee / anomaly: 1 / e, e = 0.01 for this state)
+            c0 = arr(cart)
+            rtol = 4.0 * (tp / 100 / float(np.linalg.norm(c0[:3])) + tv / 100 / float(np.linalg.norm(c0[3:]))) * (100.0 if form == "keplerian" else 4.0) + 64 * EPS
+            if not t.margin("forms: round trip of the elements through another frame [relative / tol]", rel, rtol, case):
+                t.fail(f"forms/roundtrip/{klass(F)}", "A->B->A is the identity in any form", case, x0.tolist(), back.tolist(), f"{form} EME2000->{F}->EME2000: {rel:.3e}")
+            t.ev((cfg["eop"], ctx["dt"], "forms", form, F))
+            t.states_add(1)
+
+
 def run_light(cfg, dt, t):
     """Per-date checks only: reference edges and matrix structure."""
     ctx = get_ctx(dt)
     ctx["memo"].clear()
     check_edges(ctx, cfg, t)
+    check_forms(ctx, cfg, t)
     for A in BUILTIN:
         for B in BUILTIN:
             if A != B:
@@ -898,6 +945,8 @@ def check_case(case, t):
         check_fd(ctx, cfg, case["state"], case["B"], t)
     elif k == "edge":
         check_edges(ctx, cfg, t)
+    elif k == "forms":
+        check_forms(ctx, cfg, t)
     elif k == "repeat":
         run_triples(ctx, cfg, case["state"], t, FRAMES, case.get("a_list"))
     elif k == "pairs":
@@ -928,6 +977,7 @@ def run_unit(p, t):
     before = _G["warnings"].n
     if p.get("per_date"):
         check_edges(ctx, cfg, t)
+        check_forms(ctx, cfg, t)
         for A in BUILTIN:
             for B in BUILTIN:
                 if A != B:
@@ -971,9 +1021,9 @@ def units(tier, seed):
             if tier == "quick":
                 # LEO state: all triples, split by first frame into two units; GEO and ground point: finite differences
                 # and all ordered pairs (deviation bound: identities are linear in the state)
-                cut = 8
-                u.append((cfg, dict(part="main", config=cfg, date=d, state=0, per_date=True, fd_states=[0, 1, 2], pair_states=[1, 2], a_list=FRAMES[:cut])))
-                u.append((cfg, dict(part="main", config=cfg, date=d, state=0, a_list=FRAMES[cut:])))
+                u.append((cfg, dict(part="main", config=cfg, date=d, state=0, per_date=True, fd_states=[0, 1, 2], pair_states=[1, 2], a_list=FRAMES[:4])))
+                u.append((cfg, dict(part="main", config=cfg, date=d, state=0, a_list=FRAMES[4:13])))
+                u.append((cfg, dict(part="main", config=cfg, date=d, state=0, a_list=FRAMES[13:])))
             else:
                 for si in range(4):
                     u.append((cfg, dict(part="main", config=cfg, date=d, state=si, per_date=(si == 0), fd_states=[si], a_list=list(FRAMES))))
